@@ -77,6 +77,16 @@ def tasks(tier):
         cfg = dict(M=4, per_class=pc, max_unknown=mu, alphabet=["ok", "x:U", "x:T", "r:U"],
                    sleeper="policy")
         out.append({"family": "permit-sugar", "cfg": cfg, "entry": e, "bound": 0})
+    # a deadline of zero; handler decisions through the context-manager entry points
+    for e in Q4 + ["Policy.call", "RetryPolicy.execute"]:
+        cfg = dict(M=3, deadline=0, alphabet=["ok", "x:T", "r:T"], durs=[0, 1], max_unknown=None,
+                   budget={"max": 3, "window": 8})
+        out.append({"family": "permit-zero-deadline", "cfg": cfg, "entry": e, "bound": 1})
+    for e in ["Retry.context", "AsyncRetry.context", "Policy.context", "AsyncPolicy.context",
+              "RetryPolicy.context", "Retry.contextset"]:
+        cfg = dict(M=3, alphabet=["ok", "x:T", "r:T"], handler="call", max_unknown=None,
+                   before_sleep="call", sleeper="call")
+        out.append({"family": "permit-context-handler", "cfg": cfg, "entry": e, "bound": 1})
     # a sleep handler answering the plain strings "defer" / "abort": if the library accepts them
     # they mean what they say (no further attempt); if it rejects them the run ends
     for ans, e in itertools.product(["S:defer", "S:abort"], Q4):
